@@ -632,6 +632,11 @@ def gen_items(rng):
     add("function-arms1", "fact(n<u64>) => <u64>\n  ├ 0u64 => 1u64\n  └ n => n * fact(n - 1u64).")
     add("function-bar-arms", "g2(n<u64>) => <u64>\n  | 0 => %s\n  | n => %s." % (F(), F()))
     add("function-stmts", "f3(x<f64>) = y<f64> :=\n  y := %s." % F())
+    add("function-stmts-many", "f4(x<f64>) = y<f64> :=\n  z := %s\n  w := z * 2\n  y := w + x." % F())
+    add("function-stmts-match", "f5(x<u64>) = y<u64> :=\n  z := x + 1\n  y := z?\n    ├ 0 ⇒ %s\n    └ * ⇒ %s.." % (N(), N()))
+    add("function-stmts-string", 'f6(x<u64>) = y<string> :=\n  y := "%s\n%s".' % (rng.choice(["Hello", "a b", ""]), rng.choice(["World", "  two", "x"])))
+    add("function-stmts-rawstring", 'f7(x<u64>) = y<string> :=\n  y := """%s\n%s""".' % (rng.choice(["Hello", "a b"]), rng.choice(["World", "  two"])))
+    add("multiline-string-in-matrix", '%s := ["a\nb" "c"]' % V())
     add("match", "%s := %s?\n  | %s => %s\n  | * => %s." % (V(), V(), N(), F(), F()))
     add("match-guard", "%s := %s?\n  | v, v > %s => %s\n  | * => %s." % (V(), V(), N(), F(), F()))
     add("match-array", "%s := %s?\n  | [] => 0\n  | [h ...] => h\n  | * => %s." % (V(), V(), N()))
